@@ -111,6 +111,8 @@ def gen_program(rng, world, sites, faulty, tier="quick"):
         if kind in ("resolve", "resolving"):
             prog.append({"op": kind, "ref": rng.choice(refs), "body_raises": rng.random() < 0.3})
             continue
+        if rng.random() < 0.1:
+            prog.append({"op": "check_schema"})       # Validator.check_schema(schema): a class-level operation
         if rng.random() < 0.12:
             # construction under the scheduler: the user builds a new validator object for the same schema in the
             # middle of the program (library constructors run while the other threads work).  Registering a class
@@ -133,6 +135,7 @@ def generate(rng, tier="quick"):
                        nested_id_rate=rng.choice([0.15, 0.3, 0.5]), unresolvable_rate=rng.choice([0.0, 0.0, 0.05]),
                        ninstances=rng.randint(2, 4), inst_depth=rng.choice([3, 3, 4]),
                        triggers=rng.random() < 0.6, formats=rng.random() < 0.55, metaschema_refs=rng.random() < 0.4,
+                       custom_keywords=rng.random() < 0.5,
                        regex_boost=rng.random() < 0.7)
     worlds = [base]
     windex = [0]
@@ -165,9 +168,12 @@ def generate(rng, tier="quick"):
             cfg["base_mode"] = actors[0]["cfg"]["base_mode"]
             cfg["default_resolver"] = actors[0]["cfg"]["default_resolver"]
             cfg["share_format_checker"] = rng.random() < 0.5
+            cfg["share_class"] = rng.random() < 0.6
         actors.append({"world": windex[i], "cfg": cfg, "program": gen_program(rng, base, sites, faulty, tier),
                        "share_root_with": 0 if i in shared else None,
-                       "store_from": (rng.randrange(i) if (i > 0 and i not in shared and rng.random() < 0.2) else None)})
+                       "store_from": (rng.randrange(i) if (i > 0 and i not in shared and rng.random() < 0.2) else None),
+                       # this validator object is an instance of an EARLIER actor's (possibly derived) class
+                       "class_from": (rng.randrange(i) if (i > 0 and rng.random() < 0.3) else None)})
     if mode == "coop":
         bias = rng.choice(["uniform", "runs", "alternate"])
         length = rng.randint(10, 60)
@@ -222,7 +228,8 @@ def generate(rng, tier="quick"):
             "more_schedules": more, "requests": rng.random() < 0.3, "share_instances": rng.random() < 0.2,
             "warnings_are_errors": rng.random() < 0.1,
             # nobody shares a root or hands over a store: each thread may then build its own validator itself
-            "late_construct": bool(not shared and all(a["store_from"] is None for a in actors) and rng.random() < 0.35)}
+            "late_construct": bool(not shared and all(a["store_from"] is None and a["class_from"] is None for a in actors)
+                                   and rng.random() < 0.35)}
 
 
 # --------------------------------------------------------------------------- execution (children)
@@ -346,7 +353,9 @@ def build_actors(scn, router):
         src = actors[j] if (j is not None and j < i) else None
         sj = spec.get("store_from")
         donor = actors[sj] if (sj is not None and sj < i and src is None) else None
+        cj = spec.get("class_from")
         actors.append(Actor(world, spec["cfg"], router, shared_from=src, store_from=donor,
+                            class_from=actors[cj] if (cj is not None and cj < i) else None,
                             defer=bool(scn.get("late_construct"))))
     return actors
 
@@ -547,6 +556,8 @@ def exec_alone(arg):
     spec = one["actors"][i]
     spec["share_root_with"] = None
     sj = spec.get("store_from")
+    if sj is None:
+        sj = spec.get("class_from")
     if sj is not None and sj < i:
         # the donor of the store object is constructed (never operated), exactly as in the interleaved run;
         # a donor may itself have taken its store from an earlier actor (or share a root with one), so the
@@ -842,7 +853,8 @@ def shrink(scn):
     # fewer actors (keep >= 2), fewer ops
     if len(scn["actors"]) > 2:
         for i in range(len(scn["actors"]) - 1, -1, -1):
-            if any(a.get("share_root_with") == i or a.get("store_from") == i for a in scn["actors"]):
+            if any(a.get("share_root_with") == i or a.get("store_from") == i or a.get("class_from") == i
+                   for a in scn["actors"]):
                 continue
             c = copy.deepcopy(scn)
             del c["actors"][i]
@@ -851,6 +863,8 @@ def shrink(scn):
                     a["share_root_with"] -= 1
                 if a.get("store_from") is not None and a["store_from"] > i:
                     a["store_from"] -= 1
+                if a.get("class_from") is not None and a["class_from"] > i:
+                    a["class_from"] -= 1
             if c["schedule"]["mode"] == "coop":
                 c["schedule"]["order"] = [x if x < i else x - 1 for x in c["schedule"]["order"] if x != i]
             else:
